@@ -586,7 +586,8 @@ def r15_9(ctx, counts) -> RuleResult:
                         if isinstance(e, (ast.Dict, ast.List, ast.DictComp, ast.ListComp)):
                             return True
                         if isinstance(e, ast.Call):
-                            return dotted(e.func) in FRESH_CALLS
+                            return dotted(e.func) in FRESH_CALLS or \
+                                dotted(e.func).split('.')[-1] in ('copy', 'deepcopy', '_evaluate')
                         if isinstance(e, ast.Name) and e.id not in params and depth < 3:
                             defs = [y.value for y in walk_local(f.node)
                                     if isinstance(y, (ast.Assign, ast.AnnAssign))
